@@ -534,6 +534,9 @@ class AsyncServer(base_server.BaseServer):
 
     async def _handle_connect(self, eio_sid, namespace, data):
         """Handle a client connection request."""
+        if eio_sid not in self.environ:
+            # the Engine.IO connection has already ended
+            return
         namespace = namespace or '/'
         sid = None
         if namespace != '*' and (
@@ -703,7 +706,11 @@ class AsyncServer(base_server.BaseServer):
                                        pkt.data)
             elif pkt.packet_type == packet.BINARY_EVENT or \
                     pkt.packet_type == packet.BINARY_ACK:
-                self._binary_packet[eio_sid] = pkt
+                if eio_sid in self.environ or any(
+                        self.manager.sid_from_eio_sid(eio_sid, n)
+                        for n in self.manager.get_namespaces()):
+                    # (nothing is kept for a connection that has ended)
+                    self._binary_packet[eio_sid] = pkt
             elif pkt.packet_type == packet.CONNECT_ERROR:
                 raise ValueError('Unexpected CONNECT_ERROR packet.')
             else:
